@@ -86,7 +86,7 @@ def parse_output(out):
             cur.same.append((False, before, after))
             i = j if (j < n and lines[j] == "AFTER-END") else j - 1
         else:
-            if ln.startswith("PARSE ") or ln.startswith("FATAL-CHILD") or ln.startswith("UNKNOWN-COMMAND"):
+            if ln.startswith("PARSE ") or ln.startswith("FATAL-CHILD") or ln.startswith("UNKNOWN-COMMAND") or ln.startswith("FDS "):
                 cur.other.append(ln)
             cur.text.append(ln)
         i += 1
